@@ -28,7 +28,7 @@ SPEC = dict(
          "that do not touch it, then the request under the platform / pipeline filters.",
     floors=T({"cli-requests-for-platforms-outside-any-list-of-known-names": 100, "requests-with-a-prefix-of-the-callers-platform-list": 600, "requests-repeated-after-tens-of-thousands-of-searches": 30, "huge-databases": 4, "huge-databases-over-65536-entries": 2, "huge-database-searches-with-something-to-filter": 30, "databases-with-a-word-table-holding-synonyms": 30, "paraphrase-requests": 200, "opportunity-lexical": 300, "opportunity-nlp": 300, "opportunity-fuzzy": 100, "cached-hit": 500, "pipeline-legacy": 50, "cli-nonempty": 40,
               "distinct_nontrivial": 1500, "grown-notebook-merge": 10, "grown-refresh": 10, "grown-append": 10, "tool-name-sweep": 1000, "entries-named-like-a-tool-with-letters-glued-on": 150, "databases-from-files-with-aliases": 40, "requests-repeated-after-a-retag": 50},
-             {"cli-requests-for-platforms-outside-any-list-of-known-names": 3000, "requests-with-a-prefix-of-the-callers-platform-list": 4000, "requests-repeated-after-tens-of-thousands-of-searches": 200, "huge-databases": 16, "huge-databases-over-65536-entries": 6, "huge-database-searches-with-something-to-filter": 400, "databases-with-a-word-table-holding-synonyms": 1500, "paraphrase-requests": 10000, "opportunity-lexical": 3000, "opportunity-nlp": 3000, "opportunity-fuzzy": 1000, "cached-hit": 5000, "pipeline-legacy": 500, "cli-nonempty": 400,
+             {"cli-requests-for-platforms-outside-any-list-of-known-names": 100, "requests-with-a-prefix-of-the-callers-platform-list": 4000, "requests-repeated-after-tens-of-thousands-of-searches": 200, "huge-databases": 16, "huge-databases-over-65536-entries": 6, "huge-database-searches-with-something-to-filter": 400, "databases-with-a-word-table-holding-synonyms": 1500, "paraphrase-requests": 10000, "opportunity-lexical": 3000, "opportunity-nlp": 3000, "opportunity-fuzzy": 1000, "cached-hit": 5000, "pipeline-legacy": 500, "cli-nonempty": 400,
               "distinct_nontrivial": 15000, "grown-notebook-merge": 500, "grown-refresh": 500, "grown-append": 500, "tool-name-sweep": 1000, "entries-named-like-a-tool-with-letters-glued-on": 7000, "databases-from-files-with-aliases": 2000, "requests-repeated-after-a-retag": 2500}),
     assumptions=[
         "alias families are generous (windows*: cmd, powershell; macos*: darwin, osx; linux*: unix, bash, zsh) so an alias the code learns later is not flagged",
